@@ -3137,6 +3137,7 @@ status_t MessageField :: TemplatedUnflatten(Message & unflattenTo, const String 
          if (doCustomMessageUnflatten)
          {
             MRETURN_ON_ERROR(unflat.SeekRelative(sizeof(uint32)));  // account for itemSize field read
+            if (itemSize > calcSizeUnflat.GetNumBytesAvailable()) return B_BAD_DATA;  // sub-Message can't be larger than what's left of our buffer
 
             // Gotta use custom-unflattening-logic here, since the regular MessageField::Unflatten() expects
             // to see the traditional full-metadata-included data-format, but our sub-Message's data is
